@@ -45,6 +45,12 @@ Case strip_env_faults(const Case& c) {
   return o;
 }
 
+std::string owned(const std::string& clause, std::initializer_list<const char*> also) {
+  for (const char* a : also)
+    if (G.own_prefix == std::string(a) + ".")
+      return G.own_prefix + clause.substr(clause.find('.') + 1);
+  return clause;
+}
 bool Outcome::fail(const std::string& c, const std::string& d) {
   bool own = G.own_prefix.empty() || c.rfind(G.own_prefix, 0) == 0 || c.rfind("MACHINERY", 0) == 0;
   // a clause after which the rest of the operation's oracle cannot be evaluated (the call itself failed)
@@ -136,7 +142,9 @@ void describe_msg(Case& c, Rng& r) {
   const model::Params* p = model::params((int)c.i("param", 1));
   unsigned d = (unsigned)r.below(100);
   int64_t n;
-  if (d < 25)
+  if (d < 4)
+    n = 0; // the empty message
+  else if (d < 25)
     n = (int64_t)r.below(401);
   else if (d < 45)
     n = r.pick(edges);
